@@ -285,6 +285,24 @@ def _run_findap(sh, rep, params, cc, nb):
             big[::2] = y
             yin = big[::2]                               # strided view
             sh.count("cell:input-strided")
+        elif form in (4, 5) and n >= 2:
+            # the same signal in other units: an exact power-of-two scale changes nothing
+            # in the selection rule (tol is relative to max|dy|), but it moves products of
+            # slopes towards under/overflow
+            y = y * (2.0 ** -600 if form == 4 else 2.0 ** 500)
+            ylist = y.tolist()
+            yin = y
+            sh.count("cell:input-scaled-2^" + ("-600" if form == 4 else "500"))
+        elif form in (6, 7, 8) and n >= 2 and np.all(y == np.round(y)) \
+                and np.abs(y).max() <= 10:
+            # raw counts of a data-acquisition system: narrow integer dtypes with steps
+            # whose products do not fit the dtype
+            K, dt = {6: (3000, np.int16), 7: (50000, np.int32),
+                     8: (4000000000, np.int64)}[form]
+            y = y * float(K)
+            ylist = y.tolist()
+            yin = y.astype(dt)
+            sh.count("cell:input-" + np.dtype(dt).name)
         for tol in tols:
             _one_findap(sh, rep, cp, cc, nb, np, fam, ylist, yin, tol, gen)
         # -- sigcount end to end (findap's default tol) --------------------------------
@@ -754,6 +772,12 @@ def _record(r, np, o):
     up = (o["idx"] // 7) % 3                            # 0: no up-sampling needed
     fmax = sr / [20.0, 6.5, 3.4][up]
     freq = np.unique(np.round([10.0 + float(r.uniform(0, 5)), fmax / 2.7, fmax], 3))
+    if o["idx"] % 4 == 1:
+        # analysis frequencies typed in as whole numbers (np.arange(20, 60, 10)): an
+        # integer dtype must not leak into the result arrays
+        fi = np.unique(np.round(freq)).astype(np.int64)
+        if fi.size >= 2 and fi.min() > 0:
+            freq = fi
     Q = float(r.choice([5.0, 10.0, 25.0, 50.0]))
     return sig, sr, freq, Q
 
